@@ -1080,7 +1080,7 @@ TRUSTED_BASE = ['modelled (not verified) code: pybtex/richtext.py (all classes a
                 'str.upper/lower/isalpha are modelled on ASCII only, \\s as the 29 Python whitespace code points; '
                 'the regexes whitespace_re and delimiter_re are modelled by hand-written splitters (compared with the live objects through String.split on every run)']
 ASSUMPTIONS = ['non-ASCII letters are outside the domain on which model and implementation are compared (those streams use ASCII, whitespace code points and a few non-letter symbols); characters whose case mapping changes length are exercised by the oracle-only stream expanding_case_oracle_only (expected values from Python str.upper/lower on the traced pairs, each resulting character keeping the markup of the one it came from)']
-PARTIAL = ['not proved, left to the correspondence run and the oracle: cut positions of split / string separators (F17s), split and abbreviate as steps inside ops_compose, an int index outside the bounds inside ops_compose (F23)',
+PARTIAL = ['not proved, left to the correspondence run and the oracle: exactness of split beyond a String / a one-String-part text (cut positions on multi-part texts, string separators; F17s), abbreviate; in ops_compose (hsem) an out-of-range int index (F23) and the cut positions of split steps (F17s) are explicit unspecified clauses',
            'immutability of operands is oracle-only: around every API call a deep snapshot (structure dump incl. external flags, tracing-back-end rendering, str, len) of each operand is compared before/after',
            'the _any theorems hold up to `erase`, which only reads the deprecated tag name emph as em (identity on every constructible text: erase_wf)',
            'refuted statements kept as theorems: index_out_of_range_raises_refuted (F23), contains/startswith/endswith_flat_refuted (F17), split_no_empty_piece_refuted (F17s)']
